@@ -453,6 +453,21 @@ func TestCheck(t *testing.T) {
 			}
 		}
 	}
+	// a client that changes something and then reads, against another client's read: what the reader of
+	// the first client sees must account for its own completed change (state that reads keep in memory
+	// must not outlive the change)
+	var pairsMR []hx.Scenario
+	readers := []op{{Kind: "get", Name: "a"}, {Kind: "getcond", Name: "a", Ver: 1}, {Kind: "getcond", Name: "a", Ver: 2}}
+	for _, pre := range prestates {
+		for _, a1 := range []op{alphabet[0], alphabet[3], alphabet[5], alphabet[6]} {
+			for _, a2 := range readers {
+				for _, b1 := range readers {
+					progs := [][]op{{a1, a2}, {b1}}
+					pairsMR = append(pairsMR, hx.Scenario{Name: progName(pre, progs, false), Make: scenario(pre, progs, false)})
+				}
+			}
+		}
+	}
 	cur := [][]op{
 		{{Kind: "put", Name: "a", Value: "x"}, {Kind: "activate", Name: "a", Ver: 2}},
 		{{Kind: "put", Name: "a", Value: "y"}, {Kind: "delver", Name: "a", Ver: 1}},
@@ -473,13 +488,14 @@ func TestCheck(t *testing.T) {
 			}
 		}
 	}
-	all := append(append(append(append([]hx.Scenario{}, pairs1...), pairs2...), triples...), httpPairs...)
+	all := append(append(append(append(append([]hx.Scenario{}, pairs1...), pairs2...), triples...), httpPairs...), pairsMR...)
 	if hx.ReplaySched(t, env, rep, all) {
 		rep.Write(env)
 		return
 	}
 	hx.ExploreScenarios(t, env, rep, "db-pairs-1op-all-interleavings", pairs1, -1, false, nil)
 	hx.ExploreScenarios(t, env, rep, "http-pairs-1op-all-interleavings", httpPairs, -1, false, nil)
+	hx.ExploreScenarios(t, env, rep, "db-change-then-read-vs-read-all-interleavings", pairsMR, -1, false, nil)
 	if env.Thorough() {
 		hx.ExploreScenarios(t, env, rep, "db-2op-vs-1op-all-interleavings", pairs2, -1, false, nil)
 		hx.ExploreScenarios(t, env, rep, "db-triples-2op-bound3", triples, 3, false, nil)
